@@ -1,24 +1,16 @@
 import Xrl.Spec.LBeta
 /-!
-# C10: the grouped line energies by the TEXT, including the fallback clause
+# C10: the fallback clause of the grouped line energies (after the repair of notes/proposed_fixes/C10-8.diff)
 
-"The energy of a grouped line (K-alpha, K-beta, L-alpha, L-beta and the IUPAC doublets …) is the radiative-rate-weighted (for
-L-beta: cross-section-weighted) mean of the energies of exactly its member lines — hence lies between the smallest and largest
-member energy — **falling back to the plain mean of the members that have an energy when no rates exist**, and is an error when
-no member has an energy."
+"… falling back to the plain mean of the members that have an energy when no rates exist, and is an error when no member has an
+energy."  Since the repair `Spec.wmean` (Spec/Groups.lean) IS the text, so the text-named specifications are the ordinary ones;
+what remains here is the executable description of where the clause decides the result:
 
-`Spec.wmean` (Spec/Groups.lean) was written to agree with fluor_lines.c: no fallback for K-alpha, K-beta and L-beta (an error
-when the weights of the members with an energy do not sum to a positive number), and `Spec.composed` keeps the rate of a member
-without an energy in the denominator.  The definitions below are the text:
+* `needsFallback ms e r` : the weights of the members with an energy do not sum to a positive number, but some member has an energy;
+* `fallbackCases T`      : the (Z, group) pairs among K-alpha, K-beta, L-beta for which that holds (shipped tables: K-alpha of Li, Be;
+                           K-beta of Na, Mg; L-beta of Z = 99 … 104) — the inputs that exercise the repaired branches.
 
-* `wmeanText ms e r`   : Σ_{m has an energy} e·r / Σ_{m has an energy} r when that denominator is positive; otherwise the plain
-                         mean of the energies of the members that have one; an error when no member has an energy;
-* `composedText`       : `wmeanText` over the two members of L-alpha / a doublet, energies and rates as the public single-line
-                         functions report them;
-* `LineEnergyText`     : `Spec.LineEnergy` with `wmeanText` / `composedText` (L-beta: `LineEnergyLBText`).
-
-After the repair of notes/proposed_fixes/C10-8.diff, Spec/Groups.lean itself carries these definitions and this file goes away
-(see notes/C10c_REPORT.md).  Core Lean only.
+Core Lean only.
 -/
 namespace Xrl
 namespace Spec
@@ -27,43 +19,19 @@ section
 variable {α : Type} [Add α] [Sub α] [Mul α] [Div α] [Neg α] [LT α] [LE α] [OfScientific α]
   [DecidableLT α] [DecidableLE α] [XNum α]
 
-/-- **the mean of a group, by the text** -/
-def wmeanText (ms : List Int) (e r : Int → α) : Expect α :=
-  let den := ms.foldl (fun acc m => if e m ≤ (0.0 : α) then acc else acc + r m) (0.0 : α)
-  let num := ms.foldl (fun acc m => if e m ≤ (0.0 : α) then acc else acc + e m * r m) (0.0 : α)
-  let sum := ms.foldl (fun acc m => if e m ≤ (0.0 : α) then acc else acc + e m) (0.0 : α)
-  let cnt := ms.foldl (fun acc m => if e m ≤ (0.0 : α) then acc else acc + (1.0 : α)) (0.0 : α)
-  if (0.0 : α) < den then .value (num / den)
-  else if (0.0 : α) < cnt then .value (sum / cnt)
-  else .fails
+/-- the text-named specifications are the ordinary ones -/
+def wmeanText (ms : List Int) (e r : Int → α) : Expect α := wmean ms e r
+def composedText (T : Tables α) (Z l1 l2 : Int) : Expect α := composed T Z l1 l2
+def LineEnergyText (T : Tables α) (Z line : Int) : Expect α := LineEnergy T Z line
+def LineEnergyLBText (T : Tables α) (Z : Int) : Expect α := LineEnergyLB T Z
 
-/-- the fallback clause is needed: the weights of the members with an energy do not sum to a positive number, but some member
-has an energy — where a mean without the fallback reports an error and the text gives the plain mean -/
+/-- the fallback clause decides: the weights of the members with an energy do not sum to a positive number, but some member has
+an energy -/
 def needsFallback (ms : List Int) (e r : Int → α) : Bool :=
   !decide ((0.0 : α) < ms.foldl (fun acc m => if e m ≤ (0.0 : α) then acc else acc + r m) (0.0 : α)) &&
   decide ((0.0 : α) < ms.foldl (fun acc m => if e m ≤ (0.0 : α) then acc else acc + (1.0 : α)) (0.0 : α))
 
-/-- two-member group by the text: a member without an energy contributes neither to the numerator nor to the denominator -/
-def composedText (T : Tables α) (Z l1 l2 : Int) : Expect α :=
-  wmeanText [l1, l2] (fun m => valOr0 (singleEnergy T Z m)) (fun m => valOr0 (singleRate T Z m))
-
-def LineEnergyText (T : Tables α) (Z line : Int) : Expect α :=
-  if zOk Z = false then .fails
-  else if line = Hdr.KA_LINE then wmeanText Hdr.group_KA (eCell T Z) (rCell T Z)
-  else if line = Hdr.KB_LINE then wmeanText Hdr.group_KB (kEnergy T Z) (rCell T Z)
-  else if line = Hdr.LA_LINE then composedText T Z (Hdr.group_LA.getD 0 0) (Hdr.group_LA.getD 1 0)
-  else if line = Hdr.LB_LINE then .any
-  else match findDoublet line with
-    | some (l1, l2) => composedText T Z l1 l2
-    | none => singleEnergy T Z line
-
-/-- L-beta by the text: member energies by `LineEnergyText` (the member `LB5 = L3O45` is itself a doublet) -/
-def LineEnergyLBText (T : Tables α) (Z : Int) : Expect α :=
-  if zOk Z = false then .fails
-  else wmeanText lbEnergyMembers (fun m => valOr0 (LineEnergyText T Z m)) (lbWeight T Z)
-
-/-- the (Z, group macro) pairs among K-alpha, K-beta, L-beta on which the fallback clause decides the result (the driver lists them
-on the shipped tables: these are the inputs on which the unrepaired fluor_lines.c reports an error against the text) -/
+/-- the (Z, group macro) pairs among K-alpha, K-beta, L-beta on which the fallback clause decides the result -/
 def fallbackCases (T : Tables α) : List (Nat × Int) :=
   (List.range 121).flatMap (fun (z : Nat) =>
     (if zOk (Int.ofNat z) && needsFallback Hdr.group_KA (eCell T (Int.ofNat z)) (rCell T (Int.ofNat z)) then [(z, Hdr.KA_LINE)] else []) ++
